@@ -223,6 +223,10 @@ func c14Schemas(thorough bool) (*SPkg, []*Schema) {
 		t.svc.Methods = append(t.svc.Methods, SMethod{"again", "() Svc"})
 		return nil
 	})
+	mut("unused import", "", "either", func(t *c14tmpl) []*SPkg {
+		t.p.Imports = []SImport{{Pkg: b.base}}
+		return []*SPkg{b.base, t.p}
+	})
 	mut("missing import", "nowhere", "reject", func(t *c14tmpl) []*SPkg {
 		t.p.Imports = []SImport{{ID: "nowhere"}}
 		return nil
